@@ -875,6 +875,154 @@ func rulePrepend(w *World, r *Report, pkg *ssa.Package) {
 	}
 	r.Check(ok, rule, fnName(fn)+":coalesce-add-in-front", w.Pos(pos), "a coalesced add is placed in front of the adds already collected for that path (RFC 6902 add inserts before)",
 		"a coalesced add is appended behind the adds already collected: successive RFC 6902 adds at one index insert in front, so the read hunk has them reversed")
+	// the append position is the exception: successive `add …/-` ops each go to the current end, so
+	// they are collected in order — on a branch that knows the index is -1
+	{
+		var newFirst, oldFirst []*ssa.Store
+		var rootE ssa.Value
+		for _, fs := range h.fieldStores(fn, "Add") {
+			c, isC := strip(fs.st.Val).(*ssa.Call)
+			if !isC {
+				continue
+			}
+			b, isB := c.Call.Value.(*ssa.Builtin)
+			if !isB || b.Name() != "append" || len(c.Call.Args) != 2 {
+				continue
+			}
+			root0, sel0 := accessPath(c.Call.Args[0])
+			root1, sel1 := accessPath(c.Call.Args[1])
+			if !strings.HasSuffix(selString(sel0), ".Add") || !strings.HasSuffix(selString(sel1), ".Add") {
+				continue
+			}
+			rootDst, _ := addrPath(fs.addr.X)
+			switch {
+			case root1 == rootDst && root0 != rootDst:
+				newFirst = append(newFirst, fs.st)
+				rootE = root0
+			case root0 == rootDst && root1 != rootDst:
+				oldFirst = append(oldFirst, fs.st)
+				rootE = root1
+			}
+		}
+		d := NewDeriv(w, fn)
+		knowsDash := func(cond ssa.Value) bool {
+			for v := range d.Visited(cond) {
+				switch x := v.(type) {
+				case *ssa.BinOp:
+					if k, ok := constInt(x.Y); ok && k == -1 {
+						return true
+					}
+					if k, ok := constInt(x.X); ok && k == -1 {
+						return true
+					}
+				case *ssa.Call:
+					if sf := staticCallee(x); sf != nil && sf.Blocks != nil && fnPkg(sf) == pkg.Pkg {
+						found := false
+						allInstrs(sf, func(in ssa.Instruction) {
+							if bo, ok := in.(*ssa.BinOp); ok {
+								if k, ok := constInt(bo.Y); ok && k == -1 {
+									found = true
+								}
+							}
+						})
+						if found {
+							return true
+						}
+					}
+				}
+			}
+			return false
+		}
+		inOrder := false
+		for _, st := range oldFirst {
+			for _, b := range fn.Blocks {
+				cond, tE, fE, okb := branchEdges(b)
+				if !okb || !knowsDash(cond) {
+					continue
+				}
+				if edgeDominates(tE, st.Block()) || edgeDominates(fE, st.Block()) {
+					inOrder = true
+				}
+			}
+		}
+		r.Check(inOrder, rule, fnName(fn)+":coalesce-append-position-in-order", w.Pos(pos),
+			"adds coalesced at the append position (index -1, the pointer token `-`) are collected in the order of the ops",
+			"every coalesced add is placed in front, also at the append position: `add /- 1, add /- 2` is read as a hunk adding 2 then 1, where RFC 6902 appends 1 then 2")
+		// an element that carries context of its own is not folded into the previous hunk (its context would be lost)
+		if rootE != nil && len(newFirst)+len(oldFirst) > 0 {
+			looks := func(cond ssa.Value) (bool, bool) {
+				bef, aft := false, false
+				for v := range d.Visited(cond) {
+					switch x := v.(type) {
+					case *ssa.FieldAddr:
+						switch fieldName(x.X.Type(), x.Field) {
+						case "Before":
+							bef = true
+						case "After":
+							aft = true
+						}
+					case *ssa.Field:
+						switch fieldName(x.X.Type(), x.Field) {
+						case "Before":
+							bef = true
+						case "After":
+							aft = true
+						}
+					case *ssa.Call:
+						if sf := staticCallee(x); sf != nil && sf.Blocks != nil && fnPkg(sf) == pkg.Pkg {
+							fromE := false
+							for _, a := range x.Call.Args {
+								if ra, _ := accessPath(a); ra == rootE || d.HasRoot(a, rootE) {
+									fromE = true
+								}
+							}
+							if fromE {
+								allInstrs(sf, func(in ssa.Instruction) {
+									switch y := in.(type) {
+									case *ssa.FieldAddr:
+										switch fieldName(y.X.Type(), y.Field) {
+										case "Before":
+											bef = true
+										case "After":
+											aft = true
+										}
+									case *ssa.Field:
+										switch fieldName(y.X.Type(), y.Field) {
+										case "Before":
+											bef = true
+										case "After":
+											aft = true
+										}
+									}
+								})
+							}
+						}
+					}
+				}
+				return bef, aft
+			}
+			guarded := true
+			for _, st := range append(append([]*ssa.Store{}, newFirst...), oldFirst...) {
+				g := false
+				for _, b := range fn.Blocks {
+					cond, tE, fE, okb := branchEdges(b)
+					if !okb || !(edgeDominates(tE, st.Block()) || edgeDominates(fE, st.Block())) {
+						continue
+					}
+					if bef, aft := looks(cond); bef && aft {
+						g = true
+					}
+				}
+				if !g {
+					guarded = false
+				}
+			}
+			// or the context is carried over: stores into Before and After of the stored hunk in the same block
+			r.Check(guarded, "R-COALESCE", fnName(fn)+":coalesce-keeps-context", w.Pos(pos),
+				"an element is folded into the previous hunk only behind a test of its own before- and after-context",
+				"an element on the same path is folded into the previous hunk without its Before/After being looked at: test ops that became its context are dropped — [test /0 1, test /2 3, test /1 2, remove /1 2, test /0 3, add /1 4] applied to [1,2,3] gives [1,4,3] where RFC 6902 fails at the fifth op")
+		}
+	}
 }
 
 // ---------------------------------------------------------------- R-MERGEHUNK
